@@ -10,13 +10,16 @@ META = {
         "17.e 28 mansions on the lunar-day and sexagenary-day routes: luminary = weekday, +1 per day (for every consistent weekday / day pillar pair)",
         "17.c flying nine star of the year descends one per year from 1864 = One White (three 360-year windows; period 180), LunarYear and SixtyCycleYear",
         "17.f flying nine star of the hour: ascending between the winter- and summer-solstice days, descending otherwise, first star by the day-branch group, one per double hour (lunar-hour and instant-level routes)",
+        "17.h flying nine star of the day, dates on or after the civil year's first turning day: ascending one per day from One White at the Jiazi day nearest the winter solstice, descending one per day from Nine Purple at the Jiazi day nearest the summer solstice, a run lasting until the next turning day ('nearest': solstice pillar index > 29 takes the next Jiazi day, otherwise the previous one); both routes, every solstice table and pillar alignment",
+        "17.i the same for the dates before the first turning day (continuing the run from the Jiazi day nearest the previous summer solstice): the real code counts back from the first turning day instead — KNOWN FINDING (star jumps on January 1 after a 240-day descending run); the check first proves that the code's behaviour there is exactly the count-back formula, any other deviation is a violation",
         "17.g day officer: Jian exactly when day branch = month branch, +1 per branch; Yellow/Black-path spirit from the month (day) branch for days (hours)",
     ],
-    "outside": ["flying nine star of the day (its boundary behaviour around the Jiazi days nearest the solstices has no independent statement to check against)", "flying nine star of the year outside the three windows",
+    "outside": ["flying nine star of the year outside the three windows",
                 "that the month pillar used by the day officer is the one C08 leaves outside (switching at Jie days)"],
     "assumptions": [
         "engine B object model: axioms A-index (11.d), A-pillar (19.h); weekday = (N+1) mod 7 (07.a) and day pillar = (N+49) mod 60 (07.c) for day number N",
         "17.g lunar-hour spirits: the day pillar reported by the instant-level view (SixtyCycleHour::get_day) is the day pillar, rolled to the next one from 23:00 (C09's instant-level clause, assumed here); the hour pillar's branch is floor((h+1)/2) mod 12 (09.a)",
+        "17.h/17.i: days are day numbers, the solstice days of the civil year (and the previous summer solstice) are arbitrary 170..195 days apart, day pillar = (N+49) mod 60 (07.c); SolarDay order/subtract/next on day numbers (C01)",
         "struct invariants: lunar month number 1..12, day 1..30, pillars 0..59",
     ],
 }
@@ -33,5 +36,7 @@ def engine_b(tier, seed, scr):
     return [pillars.k_six_star(eng), almanac.k_phase_ren(eng, "phase"), almanac.k_phase_ren(eng, "ren-month"), almanac.k_phase_ren(eng, "ren-day"),
             pillars.k_month_nine_star(eng), almanac.k_mansion(eng, "LunarDay"), almanac.k_mansion(eng, "SixtyCycleDay"),
             almanac.k_duty_twelve(eng, "duty"), almanac.k_duty_twelve(eng, "twelve"), almanac.k_hour_twelve(eng), almanac.k_lunar_hour_twelve(eng),
-            almanac.k_hour_nine_star(eng, "LunarHour"), almanac.k_hour_nine_star(eng, "SixtyCycleHour")] + \
+            almanac.k_hour_nine_star(eng, "LunarHour"), almanac.k_hour_nine_star(eng, "SixtyCycleHour"),
+            almanac.k_day_nine_star(eng, "LunarDay", False), almanac.k_day_nine_star(eng, "SixtyCycleDay", False),
+            almanac.k_day_nine_star(eng, "LunarDay", True), almanac.k_day_nine_star(eng, "SixtyCycleDay", True)] + \
            [almanac.k_year_nine_star(eng, w, lo, hi) for w in ("LunarYear", "SixtyCycleYear") for (lo, hi) in ((-1, 360), (1684, 2044), (9640, 9999))]
